@@ -28,16 +28,19 @@ func (C09) Gen(rt *rapid.T, tier string) any {
 	tree := genTree(rt, TreeOpts{MaxNodes: 10, MaxDepth: 3, Symlinks: true, Specials: false, Gitignore: true, MaxSize: 40}, "t")
 	cfg.Roots = []RootSpec{{Tree: tree}}
 	cfg.Extractors = genExtractors(rt, 3, false)
+	if rapid.IntRange(0, 2).Draw(rt, "ex0.all") > 0 {
+		cfg.Extractors[0].Pred = Pred{Op: "all"} // most trees should have extractions to protect
+	}
 	for i := range cfg.Extractors {
 		cfg.Extractors[i].Partial = rapid.Bool().Draw(rt, fmt.Sprintf("partial%d", i))
 	}
 	cfg.ErrorOnFSErrors = rapid.Bool().Draw(rt, "fatal")
 	cfg.UseGitignore = rapid.Bool().Draw(rt, "usegitignore")
-	cfg.ReadSymlinks = rapid.IntRange(0, 3).Draw(rt, "readsymlinks") == 0
+	cfg.ReadSymlinks = rapid.IntRange(0, 3).Draw(rt, "readsymlinks") == 3
 	if rapid.Bool().Draw(rt, "usemaxsize") {
 		cfg.MaxFileSize = rapid.IntRange(1, 40).Draw(rt, "maxsize")
 	}
-	if rapid.IntRange(0, 2).Draw(rt, "usepaths") == 0 {
+	if rapid.IntRange(0, 2).Draw(rt, "usepaths") == 2 {
 		var cands []string
 		tree.WalkTree(func(p string, x *Node) {
 			if p != "." && (x.Kind == "file" || x.Kind == "dir") && !ruleExcludes(cfg, tree, p, x.IsDir()) {
@@ -48,7 +51,7 @@ func (C09) Gen(rt *rapid.T, tier string) any {
 			cfg.PathsToExtract = uniq(rapid.SliceOfN(rapid.SampledFrom(cands), 1, 2).Draw(rt, "paths"))
 		}
 	}
-	cfg.Disk = DiskPlan{Chunk: rapid.SampledFrom([]int{0, 5, 16}).Draw(rt, "chunk"), NoReadDirFile: rapid.IntRange(0, 5).Draw(rt, "noreaddirfile") == 0}
+	cfg.Disk = DiskPlan{Chunk: rapid.SampledFrom([]int{0, 5, 16}).Draw(rt, "chunk"), NoReadDirFile: rapid.IntRange(0, 5).Draw(rt, "noreaddirfile") == 5}
 	return cfg
 }
 
